@@ -331,6 +331,32 @@ def compound_assign_obligations():
     return obs, decls
 
 
+def copy_independence_obligations():
+    """'Aggregates are copied on assignment, so mutating one copy is never visible through another copy': a binding made
+    from `p^` keeps the value it was made from when the pointee is overwritten afterwards through a second pointer"""
+    obs = []; decls = []
+    q6 = Struct('CI6', [('x', S('u32')), ('y', S('u16'))]); acc = Struct('CI24', [('id', S('i64')), ('bal', S('i64')), ('lim', S('i64'))])
+    decls += [q6, acc]
+    aggs = [q6, acc, Array(3, S('u8')), Array(2, S('i64')), Opt(S('i32')), Opt(S('i64')), E1, Err(S('bool'), S('i32'))]
+    forms = [('imm', 'b :: p^;'), ('immparen', 'b :: (p^);'), ('mut', 'b := p^;'), ('ann', 'b : %(T)s = p^;'), ('immann', 'b : %(T)s : p^;'), ('two', 'c :: p^; b :: c;')]
+    for i, a in enumerate(aggs):
+        for pk, pty in (('ip', '^'), ('mp', '^mut ')):
+            for fn, form in forms:
+                name = 'ci_%d_%s_%s' % (i, pk, fn)
+                src = '%s :: (p: %s%s, q: ^mut %s, r: ^%s, out: ^mut %s) { %s q^ = r^; out^ = b; }' % (name, pty, a.src(), a.src(), a.src(), a.src(), form % {'T': a.src()})
+
+                def post(ctx, xs, a=a):
+                    src_b, r_b, out_b = ctx.bufs
+                    goals = [('nothing outside the destinations changed', z3.And(frame(ctx, src_b, [(0, a.size())]), frame(ctx, r_b, []), frame(ctx, out_b, [(0, a.size())])))]
+                    for (o, n) in value_bytes(a):
+                        goals.append(('the binding still holds the value it was made from', ctx.final_bytes(out_b, o, n) == ctx.init_bytes(src_b, o, n)))
+                        goals.append(('the pointee holds the newly stored value', ctx.final_bytes(src_b, o, n) == ctx.init_bytes(r_b, o, n)))
+                    return goals
+                obs.append(Ob(name, src, [('buf', a, True), ('alias', 0), ('buf', a, False), ('buf', a, True)], None, post,
+                              {'kind': 'copy-independence', 'agg': a.src(), 'binding': fn, 'pointer': 'immutable' if pk == 'ip' else 'mutable'}))
+    return obs, decls
+
+
 def abi_obligations(sizes, rnd):
     """struct arguments and returns of each size: bytes arrive intact, caller's copy is independent, neighbours untouched"""
     obs = []; decls = []
@@ -390,7 +416,10 @@ def run(chk, tier, seed):
     obs += abi_obs
     lit_obs, lit_decls = literal_obligations()
     obs += lit_obs
+    ci_obs, ci_decls = copy_independence_obligations()
+    obs += ci_obs
     ca_obs, ca_decls = compound_assign_obligations()
+    ca_decls = ca_decls + ci_decls
     # the forms that the type checker may reject are tried one by one; only the accepted ones are obligations
     kept = []
     for ob in ca_obs:
